@@ -330,6 +330,14 @@ fn gen_regular_request(r: &mut Rng) -> Vec<Hdr> {
             18 => ("keep-alive".into(), b"timeout=5".to_vec()),
             _ => ("te".into(), b"trailers".to_vec()),
         };
+        // at most one user-agent / accept-language / referer most of the time (duplicates are outside the statement)
+        let lname = name.to_lowercase();
+        if ["user-agent", "accept-language", "referer"].contains(&lname.as_str())
+            && out.iter().any(|(n, _)| n.to_ascii_lowercase() == lname.as_bytes())
+            && !r.chance(1, 8)
+        {
+            continue;
+        }
         let name = maybe_upper(r, &name);
         let mut nb = name.into_bytes();
         if r.chance(1, 60) {
@@ -351,7 +359,7 @@ fn gen_request_fields(r: &mut Rng) -> Vec<Hdr> {
         let j = r.below(i as u64 + 1) as usize;
         ps.swap(i, j);
     }
-    match r.below(24) {
+    match r.below(48) {
         0 => {
             ps.retain(|x| x.0 != b":authority");
         }
@@ -391,7 +399,7 @@ fn gen_request_fields(r: &mut Rng) -> Vec<Hdr> {
 }
 
 fn gen_response_fields(r: &mut Rng) -> Vec<Hdr> {
-    let status = match r.below(16) {
+    let status = match r.below(32) {
         0 => "",
         1 => "abc",
         2 => "+200",
@@ -402,7 +410,7 @@ fn gen_response_fields(r: &mut Rng) -> Vec<Hdr> {
         _ => *r.pick(&["200", "204", "301", "404", "500", "206"]),
     };
     let mut out = vec![h(":status", status)];
-    match r.below(20) {
+    match r.below(40) {
         0 => out.clear(),
         1 => out.push(h(":status", "404")),
         2 => out.push(h(":method", "GET")),
@@ -429,6 +437,9 @@ fn gen_response_fields(r: &mut Rng) -> Vec<Hdr> {
     let n = r.below(8) as usize;
     for _ in 0..n {
         let (a, b) = *r.pick(&pool);
+        if a == "server" && out.iter().any(|(n, _)| n.to_ascii_lowercase() == b"server") && !r.chance(1, 8) {
+            continue;
+        }
         let name = maybe_upper(r, a);
         let mut v = b.as_bytes().to_vec();
         if r.chance(1, 40) {
@@ -530,15 +541,15 @@ fn gen_message(r: &mut Rng, request: bool) -> Msg {
     } else {
         frames.extend(hb);
     }
-    match r.below(10) {
-        0 => frames.push(GFrame::new(T_DATA, 1, sid & 0x7fff_ffff, b"body".to_vec())),
+    match r.below(24) {
+        0 | 3 | 4 => frames.push(GFrame::new(T_DATA, 1, sid & 0x7fff_ffff, b"body".to_vec())),
         1 => {
             // trailers on the same stream
             let mut e2 = enc.clone();
             let t = e2.encode_block(r, &EncOpts::plain(), &[h("x-trailer", "t")]);
             frames.extend(frame_block(&t, &Framing::plain(sid)));
         }
-        2 => {
+        2 | 5 | 6 => {
             // a second message on another stream
             let f2 = if request { gen_request_fields(r) } else { gen_response_fields(r) };
             let b2 = enc.encode_block(r, &opts, &f2);
